@@ -340,7 +340,7 @@ func layoutCases(c *hx.Ctx, r *hx.Rng) {
 	for i := 0; i < n; i++ {
 		id := fmt.Sprintf("d/layout/%d", i)
 		rr := r.Fork()
-		if !c.Want(id) && !c.Want(fmt.Sprintf("d/read/%d", i)) && !c.Want(fmt.Sprintf("d/pvd/%d", i)) && !c.Want(fmt.Sprintf("d/readp/%d", i)) && !c.Want(fmt.Sprintf("d/encimg/%d", i)) && !c.Want(fmt.Sprintf("d/wlog/%d", i)) && !c.Want(fmt.Sprintf("d/compose/%d", i)) && !c.Want(fmt.Sprintf("d/ptwalk/%d", i)) {
+		if !c.Want(id) && !c.Want(fmt.Sprintf("d/read/%d", i)) && !c.Want(fmt.Sprintf("d/pvd/%d", i)) && !c.Want(fmt.Sprintf("d/readp/%d", i)) && !c.Want(fmt.Sprintf("d/encimg/%d", i)) && !c.Want(fmt.Sprintf("d/wlog/%d", i)) && !c.Want(fmt.Sprintf("d/compose/%d", i)) && !c.Want(fmt.Sprintf("d/ptwalk/%d", i)) && !c.Want(fmt.Sprintf("d/svd/%d", i)) {
 			continue
 		}
 		// start 0 only: where the image lands for other starts is a recorded defect, not layout arithmetic
@@ -447,6 +447,7 @@ func layoutCases(c *hx.Ctx, r *hx.Rng) {
 		imageCases(c, i, cf, b, loc) // whole-image model: PVD codec, pure reader, the model's own encoding of the image
 		composeCase(c, i, cf, root, b, loc) // workspace-to-image composition: names, layout, encodings from the workspace alone
 		ptwalkCase(c, i, img)               // path table: well formed, lookup of every directory's path = its extent
+		svdCase(c, i, cf, b, loc)           // supplementary (Joliet) descriptor codec
 		// the Lean reader on the real bytes (plain trees: it knows nothing of Rock Ridge names)
 		id2 := fmt.Sprintf("d/read/%d", i)
 		volBytes := int64(img.volBlocks) * cf.bs
